@@ -54,6 +54,10 @@ Definition py_abs (v : pyval) : out pyval :=
   | _ => raise_type
   end.
 
+(* max(a, b) / min(a, b) with two arguments: the first argument wins ties *)
+Definition py_max2 (a b : pyval) : out pyval := let* g := py_gt b a in Ok (if g then b else a).
+Definition py_min2 (a b : pyval) : out pyval := let* l := py_lt b a in Ok (if l then b else a).
+
 Definition py_neg (v : pyval) : out pyval :=
   match v with
   | PInt z => Ok (PInt (- z))
